@@ -9,7 +9,7 @@ CHECKS = {
     engine="vsched",
     category="model_checking",
     technique="stateless model checking of the implementation: controlled scheduler over the instrumented repository, all interleavings (happens-before cached) / preemption-bounded DFS",
-    text="Every interleaving of 1-2 consumers with 1-3 producers (plus close/reset/Discard racing) over the real pollQueue, the real packetQueue and the real polling.ServerTransport is executed under a controlled scheduler in virtual time; oracles: no packet waits for a timer, no empty answer while packets are queued, nothing lost/duplicated/reordered, packets added before close are sent. The lost wake-up the property is about lives in a window of a few instructions between a check and a wait, which only an exhaustive scheduler can place a producer into. Two overlapping polls with a slow-reading client (a response takes 1 s to write, a packet every 0.5 s must leave the queue when sent).",
+    text="Every interleaving of 1-2 consumers with 1-3 producers (plus close/reset/Discard racing) over the real pollQueue, the real packetQueue and the real polling.ServerTransport is executed under a controlled scheduler in virtual time; oracles: no packet waits for a timer, no empty answer while packets are queued, nothing lost/duplicated/reordered, packets added before close are sent. The lost wake-up the property is about lives in a window of a few instructions between a check and a wait, which only an exhaustive scheduler can place a producer into. Two overlapping polls with a slow-reading client (a response takes 1 s to write, a packet every 0.5 s must leave the queue when sent). The whole send path of a connected client socket: an emit leaves at once after ack timeouts / connect-time buffering / a volatile emit, and a retry of the socket's retry queue goes out by itself.",
     note="Trusted: vsched's semantics of mutex/channel/select/timer (litmus-validated), the instrumenter's rewrite of go/select/close/time.*; scope: <=2 consumers, <=3 producers, <=3 packets per add.",
     design="3/C19"),
 }
@@ -18,7 +18,7 @@ CHECKS["C18"] = dict(
     engine="vsched",
     category="model_checking",
     technique="explicit-state BFS over operation histories on the real registries against a reference list model, plus exhaustive interleaving exploration (controlled scheduler) of racing occurrences",
-    text="Every history of On/Once/Off(0..3 handlers incl. duplicates)/OffAll/fire over 3 handlers (one plain function, two closures of one literal) and 1-2 events (one name a prefix of the other) up to depth 4-5 is replayed on a fresh real handlerStore / eventHandlerStore and through the public wrappers Server.*NewNamespace, Namespace.*Event, ServerSocket.*Event, ServerSocket.*Error (run under the scheduler in virtual time so asynchronous fan-out has finished when observed), and compared step by step with a list model; states are deduplicated by the model's canonical form. All interleavings of 2-3 racing occurrences with Off/On decide the at-most-once part. Overlapping occurrences with a late registration over On lists of every small capacity; a handlerStore carrying a library subscription (checked after every operation); a ClientSocket's handlers with occurrences buffered before the CONNECT reply.",
+    text="Every history of On/Once/Off(0..3 handlers incl. duplicates)/OffAll/fire over 3 handlers (one plain function, two closures of one literal) and 1-2 events (one name a prefix of the other) up to depth 4-5 is replayed on a fresh real handlerStore / eventHandlerStore and through the public wrappers Server.*NewNamespace, Namespace.*Event, ServerSocket.*Event, ServerSocket.*Error (run under the scheduler in virtual time so asynchronous fan-out has finished when observed), and compared step by step with a list model; states are deduplicated by the model's canonical form. All interleavings of 2-3 racing occurrences with Off/On decide the at-most-once part. Overlapping occurrences with a late registration over On lists of every small capacity; a handlerStore carrying a library subscription (checked after every operation); a ClientSocket's handlers with occurrences buffered before the CONNECT reply. ClientSocket occurrences with attachments.",
     note="Trusted: reference model (two lists per event); vsched semantics; scope: 3 handlers, 2 events, depth 3-5.",
     design="3/C18")
 
@@ -26,7 +26,7 @@ CHECKS["C03"] = dict(
     engine="vsched",
     category="model_checking",
     technique="stateless model checking of the implementation under a controlled scheduler with virtual time; deviation-bounded DFS where 'a timer fires early' is a deviation; narrow ackHandler harness explored unbounded",
-    text="Reply/timer races are enumerated instead of sampled: the real ackHandler against its timeout goroutine (all interleavings), sio.Server over a harness-implemented eio socket whose protocol-level client answers with right/duplicate/unknown ack ids, text and binary ACKs, before/at/after the timeout, a late acknowledgement of a previous session of the same client arriving on its new session, with the connection cut mid-flight and 1-3 acks outstanding, and the Go client offline (0-3 attachments buffered, then connect and emit again) and online over an in-process polling link. Each scenario runs with an exact virtual clock (the winner is then determined) and with early-timer deviations (any instruction may take arbitrarily long; exactly-once and reply content are judged). Oracle: invocation count and arguments of every user callback, no frame of a timed-out packet sent, socket usable afterwards, no mutex held, no deadlock. Unencodable arguments with ack timeouts (offline, online, from the server); the ACK frames of server and client handlers (0/1/2/nil/binary arguments, ids up to MaxUint64, root and custom namespace) compared with the v5 form on the wire.",
+    text="Reply/timer races are enumerated instead of sampled: the real ackHandler against its timeout goroutine (all interleavings), sio.Server over a harness-implemented eio socket whose protocol-level client answers with right/duplicate/unknown ack ids, text and binary ACKs, before/at/after the timeout, a late acknowledgement of a previous session of the same client arriving on its new session, with the connection cut mid-flight and 1-3 acks outstanding, and the Go client offline (0-3 attachments buffered, then connect and emit again) and online over an in-process polling link. Each scenario runs with an exact virtual clock (the winner is then determined) and with early-timer deviations (any instruction may take arbitrarily long; exactly-once and reply content are judged). Oracle: invocation count and arguments of every user callback, no frame of a timed-out packet sent, socket usable afterwards, no mutex held, no deadlock. Unencodable arguments with ack timeouts (offline, online, from the server); the ACK frames of server and client handlers (0/1/2/nil/binary arguments, ids up to MaxUint64, root and custom namespace) compared with the v5 form on the wire. Timeout/Volatile chains while offline.",
     note="Trusted: vsched semantics and virtual clock; in-process RoundTripper for TCP; scope: <=3 acks outstanding, deviation bound 1 (quick) / 2 (thorough) for whole-stack scenarios.",
     design="3/C03")
 
@@ -34,7 +34,7 @@ CHECKS["C02"] = dict(
     engine="vsched",
     category="model_checking",
     technique="stateless model checking of the implementation: deviation-bounded DFS with happens-before caching under a controlled scheduler; wire judged by an independent reference decoder",
-    text="2-3 concurrent emitters (1-2 events each, 0-2 attachments) on one connection in both directions are explored up to the deviation bound: on the server the frames handed to a harness-implemented Engine.IO socket with a slow Send, on the Go client the POST bodies of the real polling transport over an in-process link, and on the server again over the REAL Engine.IO polling transport read by a slow poller (batches parked in the transport between two polls while further flushes happen, up to 4 attachments per event; the GET bodies are decoded). A reference decoder written from the v5 protocol requires every packet to be a header followed by exactly its own attachments and every emitter's events to appear in program order. Handler-entry order of events emitted in a row is checked on both sides; the inversion caused by per-packet dispatch goroutines is a known finding keyed by its spawn site, any other inversion fails the check.",
+    text="2-3 concurrent emitters (1-2 events each, 0-2 attachments) on one connection in both directions are explored up to the deviation bound: on the server the frames handed to a harness-implemented Engine.IO socket with a slow Send, on the Go client the POST bodies of the real polling transport over an in-process link, and on the server again over the REAL Engine.IO polling transport read by a slow poller (batches parked in the transport between two polls while further flushes happen, up to 4 attachments per event; the GET bodies are decoded). A reference decoder written from the v5 protocol requires every packet to be a header followed by exactly its own attachments and every emitter's events to appear in program order. Handler-entry order of events emitted in a row is checked on both sides; the inversion caused by per-packet dispatch goroutines is a known finding keyed by its spawn site, any other inversion fails the check. The emitter meets the CONNECT reply (latency-aligned: the race between the flush of the connect-time buffer and the emitter costs 3 deviations within seconds).",
     note="Trusted: vsched semantics; the in-process link as a settled polling transport; set-up (handshake) runs on the default schedule, deviations are spent after it. Scope: <=3 emitters, bound 4/2 (quick) and 6/4 (thorough). WebSocket/upgrade wire not covered here (see C07).",
     design="3/C02")
 
@@ -42,7 +42,7 @@ CHECKS["C12"] = dict(
     engine="vsched",
     category="model_checking",
     technique="bounded exhaustive enumeration of middleware chains executed on the real server under the controlled scheduler (virtual time), plus deviation-bounded exploration of concurrent connects",
-    text="Every namespace-middleware chain of length <= 3 over {accept, join+accept, reject with error / string / struct, join+reject} plus chains of 4-5 with one rejection at each position, on '/' and '/custom', is run against the real sio.Server through a harness-implemented Engine.IO socket; the oracle is the statement itself: invocation order is a prefix of registration order ending at the first rejection, exactly one CONNECT or CONNECT_ERROR carrying the rejection, connection handlers only for admitted sockets, and no trace of a rejected socket in the namespace list, the adapter's raw room indexes or the connection. 2-3 clients connecting at once with a middleware blocked on a gate are explored to the deviation bound. Per-socket event middlewares: chains of <= 2 x six handler signatures (no args, string, int, string+int, with ack) x accept/reject; and chains over {accept, reject, reject iff the first argument is 'bad'} x seven sets of 1-3 On/Once handlers on the same event x seven sequences of 1-3 accepted/rejected occurrences (also of an unrelated event): a rejected occurrence reaches no handler, an accepted one reaches each registered handler exactly once after the whole chain has seen it. Admission on a recovery-enabled server (no pid, unknown pid, pid without offset); two goroutines (or a goroutine and a client's CONNECT) setting one namespace up at once.",
+    text="Every namespace-middleware chain of length <= 3 over {accept, join+accept, reject with error / string / struct, join+reject} plus chains of 4-5 with one rejection at each position, on '/' and '/custom', is run against the real sio.Server through a harness-implemented Engine.IO socket; the oracle is the statement itself: invocation order is a prefix of registration order ending at the first rejection, exactly one CONNECT or CONNECT_ERROR carrying the rejection, connection handlers only for admitted sockets, and no trace of a rejected socket in the namespace list, the adapter's raw room indexes or the connection. 2-3 clients connecting at once with a middleware blocked on a gate are explored to the deviation bound. Per-socket event middlewares: chains of <= 2 x six handler signatures (no args, string, int, string+int, with ack) x accept/reject; and chains over {accept, reject, reject iff the first argument is 'bad'} x seven sets of 1-3 On/Once handlers on the same event x seven sequences of 1-3 accepted/rejected occurrences (also of an unrelated event): a rejected occurrence reaches no handler, an accepted one reaches each registered handler exactly once after the whole chain has seen it. Admission on a recovery-enabled server (no pid, unknown pid, pid without offset); two goroutines (or a goroutine and a client's CONNECT) setting one namespace up at once. A socket whose middlewares are still running is not listed and gets no broadcast.",
     note="Trusted: vsched semantics; rig R1 (harness speaks Socket.IO frames by hand). Scope: chains <= 5, <= 3 concurrent clients, bound 3 (quick) / 4 (thorough), one less for 3 clients and for the closed-during-chain scenarios.",
     design="3/C12")
 
@@ -50,14 +50,14 @@ CHECKS["C06"] = dict(
     engine="vsched",
     category="model_checking",
     technique="stateless model checking of the implementation (deviation-bounded DFS under a controlled scheduler, virtual time) over a cause x phase matrix, plus fault enumeration: a scripted polling session cut at every byte",
-    text="Every termination cause (client DISCONNECT frame, Disconnect(false/true), Engine.IO close with each of its five reasons, protocol error, packet for an unjoined namespace, connect timeout) in every phase (before CONNECT, namespace middleware blocked, connected idle, burst in either direction, two namespaces) and every unordered pair of causes at once is executed on the real sio.Server over a harness-implemented Engine.IO socket and explored to the deviation bound; Server.Close, Manager.Close, client Disconnect, Disconnect(true) and a black-holed link run sio<->sio over the in-process polling link; the same API causes, and the new pipe being cut, strike at every half latency (k*L/2, k=0..7) of a transport upgrade over the duplex pipe of rig R4 (real upgrade state machines); Server.Close, Manager.Close and client Disconnect issued right after Connect() (while the Engine.IO handshake, the CONNECT packet and the admission are under way), judged per connected period of the client socket; a scripted Socket.IO-over-polling session has every request body truncated and every response failed at every byte (262 cut points). Oracle: disconnecting <= 1 and before disconnect, disconnect exactly once with a reason naming an injected cause, no event handler after it, and nothing left in the namespace list, the adapter's raw room indexes, the connection's socket table or the Engine.IO session store; the old sid answers 'unknown sid'. Two CONNECTs admitted for one namespace before the connection ends; a server burst carried over to a pipe that breaks at the first carried-over frame (the failed write is reported from inside Send).",
+    text="Every termination cause (client DISCONNECT frame, Disconnect(false/true), Engine.IO close with each of its five reasons, protocol error, packet for an unjoined namespace, connect timeout) in every phase (before CONNECT, namespace middleware blocked, connected idle, burst in either direction, two namespaces) and every unordered pair of causes at once is executed on the real sio.Server over a harness-implemented Engine.IO socket and explored to the deviation bound; Server.Close, Manager.Close, client Disconnect, Disconnect(true) and a black-holed link run sio<->sio over the in-process polling link; the same API causes, and the new pipe being cut, strike at every half latency (k*L/2, k=0..7) of a transport upgrade over the duplex pipe of rig R4 (real upgrade state machines); Server.Close, Manager.Close and client Disconnect issued right after Connect() (while the Engine.IO handshake, the CONNECT packet and the admission are under way), judged per connected period of the client socket; a scripted Socket.IO-over-polling session has every request body truncated and every response failed at every byte (262 cut points). Oracle: disconnecting <= 1 and before disconnect, disconnect exactly once with a reason naming an injected cause, no event handler after it, and nothing left in the namespace list, the adapter's raw room indexes, the connection's socket table or the Engine.IO session store; the old sid answers 'unknown sid'. Two CONNECTs admitted for one namespace before the connection ends; a server burst carried over to a pipe that breaks at the first carried-over frame (the failed write is reported from inside Send). Leave right behind the CONNECT (client DISCONNECT / DisconnectSockets racing the admission); a failed write during the carry-over must be reported as a transport error at once.",
     note="Trusted: vsched semantics; rigs R1/R3 (no real TCP; a dead client is modelled by requests that stop and bodies/responses that fail mid-way); the upgrade phase uses C07's rig R4 (a pipe, not a real WebSocket). Scope: bound 2 (quick) / 3 (thorough) after a default-schedule set-up.",
     design="3/C06")
 CHECKS["C11"] = dict(
     engine="seq",
     category="exploration",
     technique="bounded exhaustive enumeration of inputs against an independent reference encoder (Engine.IO v4), round trips, and an allocation meter in a memory-capped subprocess",
-    text="Single packets (all types x every payload of length <= 2 over 256 byte values, and a byte pattern of every length 3..4200 plus the neighbourhoods of 8/16/32/48/64 KiB and 70000, x binary/base64 modes), payloads of 0-3(4) packets over a 13-packet alphabet plus text packets whose data begins / ends with white space or control characters as the only, first and last packet of a payload, every WebTransport frame length in the three prefix forms (0..70000 in thorough) in three read compositions with a following frame to catch desynchronisation, every byte string of length <= 2(3) into all decoders, and hostile length headers under an allocation meter (limit + 64 KiB) in a ulimit-capped worker. Oracles: bytes equal a reference encoder written from the v4 protocol, decode(encode(p)) = p, EncodedLen = bytes written, no panic, allocation bounded by the configured limit.",
+    text="Single packets (all types x every payload of length <= 2 over 256 byte values, and a byte pattern of every length 3..4200 plus the neighbourhoods of 8/16/32/48/64 KiB and 70000, x binary/base64 modes), payloads of 0-3(4) packets over a 13-packet alphabet plus text packets whose data begins / ends with white space or control characters as the only, first and last packet of a payload, every WebTransport frame length in the three prefix forms (0..70000 in thorough) in three read compositions with a following frame to catch desynchronisation, every byte string of length <= 2(3) into all decoders, and hostile length headers under an allocation meter (limit + 64 KiB) in a ulimit-capped worker. Oracles: bytes equal a reference encoder written from the v4 protocol, decode(encode(p)) = p, EncodedLen = bytes written, no panic, allocation bounded by the configured limit. The empty payload is judged like every other; a received WebTransport packet must not change when the next frame is read.",
     note="Trusted: the reference encoder in harness/c11/ref.go (self-tested against the protocol document's examples). Plain build (no scheduler).",
     design="3/C11")
 
@@ -65,14 +65,14 @@ CHECKS["C05"] = dict(
     engine="vsched",
     category="model_checking",
     technique="explicit-state BFS over protocol-level operation histories replayed on the real server against a reference routing model, plus deviation-bounded schedule exploration of server and Go client under a controlled scheduler",
-    text="Server: BFS (canonical state = joined namespaces per connection + how each departed socket left, so a rejoin after every way of leaving is explored) over CONNECT / CONNECT whose connection handler kicks the socket / EVENT / EVENT+ack / DISCONNECT / server-side kick / nsp.Emit / socket.Emit / a cross-namespace ack race on 2 connections x the look-alike namespaces '/', '/a', '/ab', '/a/b' plus a non-existent one; every history is replayed on the real sio.Server through harness-implemented Engine.IO sockets and compared after every step with a routing model (frames per connection, handler invocations and disconnect reports per socket, namespace socket lists, connection closed iff an unjoined namespace was addressed). Two connections in look-alike namespaces run concurrently to the bound. Go client: a raw Engine.IO endpoint (the repo's eio.Server driven by hand) answers the CONNECTs of a 3-socket Manager in all 6 orders with events placed before/after each reply; a second namespace is connected and used at once on an open connection against a real server. A socket that leaves its namespace around its connection handler (kicked by the handler, kicked by a racing DisconnectSockets, client DISCONNECT during a slow handler) and then rejoins is explored to bound 3: the other namespace keeps working, the rejoin is admitted as a new socket, the connection stays open. The Go client leaves a namespace while its CONNECT reply is in flight (latency on poll answers) and rejoins it next to an idle second namespace.",
+    text="Server: BFS (canonical state = joined namespaces per connection + how each departed socket left, so a rejoin after every way of leaving is explored) over CONNECT / CONNECT whose connection handler kicks the socket / EVENT / EVENT+ack / DISCONNECT / server-side kick / nsp.Emit / socket.Emit / a cross-namespace ack race on 2 connections x the look-alike namespaces '/', '/a', '/ab', '/a/b' plus a non-existent one; every history is replayed on the real sio.Server through harness-implemented Engine.IO sockets and compared after every step with a routing model (frames per connection, handler invocations and disconnect reports per socket, namespace socket lists, connection closed iff an unjoined namespace was addressed). Two connections in look-alike namespaces run concurrently to the bound. Go client: a raw Engine.IO endpoint (the repo's eio.Server driven by hand) answers the CONNECTs of a 3-socket Manager in all 6 orders with events placed before/after each reply; a second namespace is connected and used at once on an open connection against a real server. A socket that leaves its namespace around its connection handler (kicked by the handler, kicked by a racing DisconnectSockets, client DISCONNECT during a slow handler) and then rejoins is explored to bound 3: the other namespace keeps working, the rejoin is admitted as a new socket, the connection stays open. The Go client leaves a namespace while its CONNECT reply is in flight (latency on poll answers) and rejoins it next to an idle second namespace. Emits (volatile, plain, volatile with ack) on a namespace that is never connected / left / still connecting, next to a connected one.",
     note="Trusted: routing model; rigs R1/R2/R3; vsched semantics. Scope: 2 connections, 5 namespaces, BFS depth 3 (quick) / 4 (thorough), bound 1-2 (quick) / 2-3 (thorough).",
     design="3/C05")
 CHECKS["C09"] = dict(
     engine="seq",
     category="exploration",
     technique="bounded exhaustive enumeration of packets of a grammar against an independent v5 reference encoder, round trip through the real decoder, input snapshot comparison and re-encoding",
-    text="Every packet of a bounded grammar (5 types x 6 namespaces x 8 boundary ack ids; every event name of length <= 2(3) over a hostile alphabet incl. quote, backslash, brackets, comma, unicode; argument trees of <= 3 values, depth <= 2 over numbers, booleans, nil, strings, Binary leaves, []any, maps, structs, pointers, typed containers), each dimension enumerated completely against representatives of the others. Oracles: frames equal an independent reference encoder (placeholders canonically renumbered), Add+decode into the emitted static types reproduces type/namespace/id/name/arguments with byte-identical attachments in place, a deep snapshot of the caller's values is unchanged by Encode, and a second Encode yields the same frames.",
+    text="Every packet of a bounded grammar (5 types x 6 namespaces x 8 boundary ack ids; every event name of length <= 2(3) over a hostile alphabet incl. quote, backslash, brackets, comma, unicode; argument trees of <= 3 values, depth <= 2 over numbers, booleans, nil, strings, Binary leaves, []any, maps, structs, pointers, typed containers), each dimension enumerated completely against representatives of the others. Oracles: frames equal an independent reference encoder (placeholders canonically renumbered), Add+decode into the emitted static types reproduces type/namespace/id/name/arguments with byte-identical attachments in place, a deep snapshot of the caller's values is unchanged by Encode, and a second Encode yields the same frames. A second decode of every packet; in sequences, a packet decoded after the parser has taken the next packet.",
     note="Trusted: reference encoder and JSON reader/writer in harness/c09 (no encoding/json). Plain build. Known findings: Encode substitutes placeholders in place (recorded, not repaired).",
     design="3/C09")
 
@@ -80,14 +80,14 @@ CHECKS["C10"] = dict(
     engine="vsched",
     category="exploration",
     technique="bounded exhaustive enumeration of frame strings (all strings <= 5/6 over 18 protocol bytes + templates) through the real decoder in watchdog-supervised worker processes, then one representative per outcome class against a live server/client under the controlled scheduler",
-    text="Every string of length <= 5 (quick) / <= 6 (thorough, 3.6e7) over the 18 protocol-significant bytes is fed as first frame to a fresh parser, completed with every {binary,text} combination of up to 2 frames, and every finished packet decoded for 5 handler signature families (and as CONNECT auth); templates add absurd attachment counts, a placeholder-number table at every nesting position, every truncation of valid packets and 20-25 digit ids. Oracle: packet or error, never a panic (recovered in the worker), never a hang (10 s watchdog, confirmed by re-running alone). One representative per outcome class (78 classes, cross-checked complete) plus hand-picked inputs is then sent to a live sio.Server over a harness-implemented Engine.IO socket (and 20 to a real Go client over the in-process link): no uncaught panic on any modelled thread, errors reach OnError or close the connection, a second and a fresh third connection still complete an echo.",
+    text="Every string of length <= 5 (quick) / <= 6 (thorough, 3.6e7) over the 18 protocol-significant bytes is fed as first frame to a fresh parser, completed with every {binary,text} combination of up to 2 frames, and every finished packet decoded for 5 handler signature families (and as CONNECT auth); templates add absurd attachment counts, a placeholder-number table at every nesting position, every truncation of valid packets and 20-25 digit ids. Oracle: packet or error, never a panic (recovered in the worker), never a hang (10 s watchdog, confirmed by re-running alone). One representative per outcome class (78 classes, cross-checked complete) plus hand-picked inputs is then sent to a live sio.Server over a harness-implemented Engine.IO socket (and 20 to a real Go client over the in-process link): no uncaught panic on any modelled thread, errors reach OnError or close the connection, a second and a fresh third connection still complete an echo. Admitted absurd attachment counts with an allocation bound per attachment frame; workers under an address-space cap.",
     note="Trusted: worker/watchdog plumbing; vsched for the process half (bound 1 quick, 2 thorough). Coverage-guided fuzzing and the sonic serializer named in the quantifier are not covered (exhaustive small-scope enumeration instead).",
     design="3/C10")
 CHECKS["C15"] = dict(
     engine="vsched",
     category="model_checking",
     technique="exhaustive grid over the back-off function with the random draw scripted; real Manager<->Server pair under the controlled scheduler in virtual time for outage enumeration (fault enumeration) and deviation-bounded exploration of offline traffic",
-    text="Back-off: full grid of (delay, max, jitter incl. invalid ones, attempt 0..70 and overflowing values, 21 random draws): delay in (0, max], first delay from ReconnectionDelay, no panic. Reconnect machine: the first connection is cut abruptly and the next j = 0..5 dials fail (refused at once, or after a 20 s dial timeout) with attempt limit 0..5, plus two outages in a row; the timestamped reconnect_attempt / reconnect_error / reconnect_failed / reconnect / connect / disconnect events are judged exactly in virtual time. Offline traffic: all 24 orders of {plain, volatile, ack, ack+timeout} emitted between the application's disconnect and connect callbacks, before/during/after placements, a server that greets with an ack request, and an emitter on another goroutine that emits at the very moment the reconnection completes (racing the client's handling of the CONNECT reply), explored to the deviation bound: non-volatile events arrive exactly once on the new session, volatile ones never, each ack callback once. Back-off read from the object the real NewManager built; outages after Manager.OffAll().",
+    text="Back-off: full grid of (delay, max, jitter incl. invalid ones, attempt 0..70 and overflowing values, 21 random draws): delay in (0, max], first delay from ReconnectionDelay, no panic. Reconnect machine: the first connection is cut abruptly and the next j = 0..5 dials fail (refused at once, or after a 20 s dial timeout) with attempt limit 0..5, plus two outages in a row; the timestamped reconnect_attempt / reconnect_error / reconnect_failed / reconnect / connect / disconnect events are judged exactly in virtual time. Offline traffic: all 24 orders of {plain, volatile, ack, ack+timeout} emitted between the application's disconnect and connect callbacks, before/during/after placements, a server that greets with an ack request, and an emitter on another goroutine that emits at the very moment the reconnection completes (racing the client's handling of the CONNECT reply), explored to the deviation bound: non-volatile events arrive exactly once on the new session, volatile ones never, each ack callback once. Back-off read from the object the real NewManager built; outages after Manager.OffAll(). An ack timeout that fires during the outage withdraws only its own packet.",
     note="Trusted: vsched virtual clock; in-process link as the network (dial = handshake request). Handler-entry order is not judged here (C02 known finding). Server handlers are registered in a namespace middleware (before the CONNECT reply); the async-connection-handler race is C01's.",
     design="3/C15")
 CHECKS["C17"] = dict(
@@ -109,14 +109,14 @@ CHECKS["C08"] = dict(
     engine="vsched",
     category="model_checking",
     technique="bounded exhaustive enumeration of broadcast histories x disconnect points x reconnection times on the real session-aware adapter in virtual time (controlled scheduler), against a reference log model with a three-valued expectation; plus server-level and Go-client replays",
-    text="Adapter level: every history of length <= 3 (quick) / <= 4 + text-only 5 (thorough) over 20 emit kinds (to all / room / room except room / except the session / direct / other sid / with ack id / the session's own To(room) (in the target room and excluded) / two rooms except the other session, text and binary) x both orders of the persisted session's room list, 10 s or 35 s apart, every disconnect point k, reconnection 1/59/61/119/121/181 s after the disconnect (0-2 passes of the production 60 s cleaner, both sides of the 120 s window), two sessions recovering from the same log. Expectation: must recover / must not / may either (offset packet itself older than the window); oracle: recovered => persisted sid and rooms and exactly the model's missed packets in order, no duplicate, no gap. Server level over harness-implemented Engine.IO sockets (incl. two outages in a row of 1/61/119 s and 59/61/119 s, whose sum exceeds the window while each stays inside it: the window counts from the latest disconnection): same sid/pid, replayed frames decode to exactly the missed events with byte-identical attachments, unknown pid/offset or expiry => fresh session. Go client over the in-process link: Recovered() and exactly the missed events once, arguments intact, for six handler signatures. Scripted: a dead peer noticed 1/5/25 s late and a client 1-2 packets behind its offset (missed packets older than the session, expired but still logged).",
+    text="Adapter level: every history of length <= 3 (quick) / <= 4 + text-only 5 (thorough) over 20 emit kinds (to all / room / room except room / except the session / direct / other sid / with ack id / the session's own To(room) (in the target room and excluded) / two rooms except the other session, text and binary) x both orders of the persisted session's room list, 10 s or 35 s apart, every disconnect point k, reconnection 1/59/61/119/121/181 s after the disconnect (0-2 passes of the production 60 s cleaner, both sides of the 120 s window), two sessions recovering from the same log. Expectation: must recover / must not / may either (offset packet itself older than the window); oracle: recovered => persisted sid and rooms and exactly the model's missed packets in order, no duplicate, no gap. Server level over harness-implemented Engine.IO sockets (incl. two outages in a row of 1/61/119 s and 59/61/119 s, whose sum exceeds the window while each stays inside it: the window counts from the latest disconnection): same sid/pid, replayed frames decode to exactly the missed events with byte-identical attachments, unknown pid/offset or expiry => fresh session. Go client over the in-process link: Recovered() and exactly the missed events once, arguments intact, for six handler signatures. Scripted: a dead peer noticed 1/5/25 s late and a client 1-2 packets behind its offset (missed packets older than the session, expired but still logged). Part race: a clean-up pass that trims racing a broadcast / a restore (explored); client level: 70 live events within one virtual second (offset ids past the 64th of their second).",
     note="Trusted: reference log model (packets with an ack id are not logged, as in the reference implementation); vsched virtual clock. Never alarms in the may-either zone.",
     design="3/C08")
 CHECKS["C13"] = dict(
     engine="seq",
     category="exploration",
     technique="exhaustive enumeration of packet-size vectors x maxPayload through the real client batcher; full limit x size x framing matrices against real servers (ServeHTTP with a counting body, real loopback HTTP, WebSocket and WebTransport/HTTP3) and the real WebTransport handshake + read loop over a harness stream; end-to-end client bursts",
-    text="Batcher: every vector of 1..5(6) packets with sizes {0,1,2,3,4,6,9} (text/binary in the first two positions) x every maxPayload 0..size+8 through the real clientSocket.Send with a recording polling transport: batches concatenate to the input and every multi-packet batch fits maxPayload. Polling inbound: limit {16, 1000, default, disabled} x body sizes around the limit and around 32/64 KiB x {Content-Length, chunked, under-declared}: over the limit => refused, not delivered, bytes read bounded, session closed; within => 200 and delivered. WebSocket both directions over real loopback with a barrier message; WebTransport: the transport's real Handshake + read loop on a harness stream (limit x length x chunking patterns) and end to end over real HTTP/3 on loopback against the real eio.Server (limit configuration x lengths around it x text/binary). Client end to end: the real client against the real server over polling, bursts of 2..5 (thorough ..12) packets each within the announced limit but together beyond it, every POST measured at the HTTP round trip.",
+    text="Batcher: every vector of 1..5(6) packets with sizes {0,1,2,3,4,6,9} (text/binary in the first two positions) x every maxPayload 0..size+8 through the real clientSocket.Send with a recording polling transport: batches concatenate to the input and every multi-packet batch fits maxPayload. Polling inbound: limit {16, 1000, default, disabled} x body sizes around the limit and around 32/64 KiB x {Content-Length, chunked, under-declared}: over the limit => refused, not delivered, bytes read bounded, session closed; within => 200 and delivered. WebSocket both directions over real loopback with a barrier message; WebTransport: the transport's real Handshake + read loop on a harness stream (limit x length x chunking patterns) and end to end over real HTTP/3 on loopback against the real eio.Server (limit configuration x lengths around it x text/binary). Client end to end: the real client against the real server over polling, bursts of 2..5 (thorough ..12) packets each within the announced limit but together beyond it, every POST measured at the HTTP round trip. Part cli also sends server bursts to a polling client.",
     note="Plain build, real time for the loopback parts (verdicts wait for delivery/close with a deadline; foreign traffic on recycled ports is filtered by session id). Limits after a polling->websocket upgrade and binary polling bodies are not run.",
     design="3/C13")
 CHECKS["C14"] = dict(
@@ -139,7 +139,7 @@ CHECKS["C07"] = dict(
     engine="vsched",
     category="model_checking",
     technique="stateless model checking of the real upgrade state machines (client tryUpgradeTo/finishUpgradeTo, server maybeUpgrade/upgradeTo, polling Discard/NOOP/re-send) under a controlled scheduler, with fault enumeration over every failure step of the candidate transport",
-    text="A real Engine.IO client and server run over the in-process polling link; numbered text and binary messages are sent in both directions by two sender threads while the upgrade is driven over a reliable duplex pipe handed to the real upgrade code as candidate transport. All schedules up to the deviation bound are explored for the fault-free upgrade and for: handshake refused, probe ping lost, probe pong lost (stall until the upgrade timeout in virtual time), pipe cut before ping / before pong / before UPGRADE, UPGRADE lost. Oracle: the multiset of messages received on each side equals the sent one (nothing lost or duplicated), UpgradeDone once and both sides on the new transport after a fault-free upgrade; after a failed attempt no close, both sides still on polling and traffic sent afterwards is delivered; a loss after the client has swapped may only end the connection with a reported close. The same upgrade is then run under a real Socket.IO server and a real Socket.IO client (Manager) exchanging numbered events with 0-2 binary attachments: pure schedule exploration, and a timed grid (latency of the answer to the in-flight poll 0..4.5 L, 1.5 s and 30 s x emitters starting at every half L of the upgrade x gap 0/L, pipe latency L) explored to bound 1-2; oracle: each application sees every event exactly once with its own attachments and nobody is disconnected.",
+    text="A real Engine.IO client and server run over the in-process polling link; numbered text and binary messages are sent in both directions by two sender threads while the upgrade is driven over a reliable duplex pipe handed to the real upgrade code as candidate transport. All schedules up to the deviation bound are explored for the fault-free upgrade and for: handshake refused, probe ping lost, probe pong lost (stall until the upgrade timeout in virtual time), pipe cut before ping / before pong / before UPGRADE, UPGRADE lost. Oracle: the multiset of messages received on each side equals the sent one (nothing lost or duplicated), UpgradeDone once and both sides on the new transport after a fault-free upgrade; after a failed attempt no close, both sides still on polling and traffic sent afterwards is delivered; a loss after the client has swapped may only end the connection with a reported close. The same upgrade is then run under a real Socket.IO server and a real Socket.IO client (Manager) exchanging numbered events with 0-2 binary attachments: pure schedule exploration, and a timed grid (latency of the answer to the in-flight poll 0..4.5 L, 1.5 s and 30 s x emitters starting at every half L of the upgrade x gap 0/L, pipe latency L) explored to bound 1-2; oracle: each application sees every event exactly once with its own attachments and nobody is disconnected. Bursts of 80 messages each way and timed bursts of 70 events at every half latency of the upgrade.",
     note="Trusted: vsched semantics; rig R4 (ordered reliable message pipe named 'webtransport') replaces the nhooyr WebSocket / QUIC byte transports, which cannot be put under the scheduler; the real polling->websocket upgrade end to end over loopback is exercised by C01's matrix (transport 'upgrade') without schedule control. Scope: 2 (quick) / 3 (thorough) messages each way, bound 2/3.",
     design="3/C07")
 
@@ -147,7 +147,7 @@ CHECKS["C16"] = dict(
     engine="vsched",
     category="model_checking",
     technique="stateless model checking of two-thread API programs under a controlled scheduler in a -race build: the race detector judges every explored schedule under its true happens-before relation; deadlock and held-mutex detection by the scheduler",
-    text="Every unordered pair (including an operation with itself) of operations from a 26-operation server alphabet (Emit with/without ack/binary, Join, Leave, Rooms, namespace and room broadcasts, On/Off handlers, Use, Disconnect(false/true), SocketsJoin, DisconnectSockets, FetchSockets, Server.Close, incoming events/acks/binary events/DISCONNECT/transport close, another client's CONNECT), an 18-operation Go-client alphabet (a Manager with two connected sockets; incl. a third namespace connecting, the other socket disconnecting and the link breaking, which starts the reconnection machinery) and a 10-operation adapter alphabet (in-memory and session-aware; incl. a Broadcast whose argument cannot be encoded, recovered by the caller) runs as a two-thread program; every server operation is also issued from inside an event handler, a disconnecting handler and an ack callback against concurrent operations (about 850 programs). All schedules to the deviation bound are executed in a -race build in which the scheduler's own hand-offs are hidden from TSan and every modelled primitive publishes exactly its Go-memory-model edge, so a report is a race under the explored schedule's real happens-before relation; verdicts: TSan report whose racing access lies in repository code, a thread blocked for ever on a lock/WaitGroup (incl. lock cycles and locks held by exited threads), a mutex held by an exited thread at quiescence, an uncaught panic. A client socket with Retries/AckTimeout (packet queue) under the pair alphabet; 7 client operations issued from inside client-side handlers (manager error after a failed dial, connect, disconnect, event, ack).",
+    text="Every unordered pair (including an operation with itself) of operations from a 26-operation server alphabet (Emit with/without ack/binary, Join, Leave, Rooms, namespace and room broadcasts, On/Off handlers, Use, Disconnect(false/true), SocketsJoin, DisconnectSockets, FetchSockets, Server.Close, incoming events/acks/binary events/DISCONNECT/transport close, another client's CONNECT), an 18-operation Go-client alphabet (a Manager with two connected sockets; incl. a third namespace connecting, the other socket disconnecting and the link breaking, which starts the reconnection machinery) and a 10-operation adapter alphabet (in-memory and session-aware; incl. a Broadcast whose argument cannot be encoded, recovered by the caller) runs as a two-thread program; every server operation is also issued from inside an event handler, a disconnecting handler and an ack callback against concurrent operations (about 850 programs). All schedules to the deviation bound are executed in a -race build in which the scheduler's own hand-offs are hidden from TSan and every modelled primitive publishes exactly its Go-memory-model edge, so a report is a race under the explored schedule's real happens-before relation; verdicts: TSan report whose racing access lies in repository code, a thread blocked for ever on a lock/WaitGroup (incl. lock cycles and locks held by exited threads), a mutex held by an exited thread at quiescence, an uncaught panic. A client socket with Retries/AckTimeout (packet queue) under the pair alphabet; 7 client operations issued from inside client-side handlers (manager error after a failed dial, connect, disconnect, event, ack). The session half of the session-aware adapter (persist, restore valid / expired / unknown, broadcast, clean-up pass) as pairs; a free-running -race companion over real loopback for net/http's share of the API (several connections from one configuration with a user *http.Transport).",
     note="Trusted: the TSan integration (self-tested by harness/racetest at set-up: locked pair silent, unlocked pair reported); channel operations publish a slightly stronger edge than Go guarantees (can hide, never invent a race); memory-order effects beyond happens-before are not produced. Scope: 2 threads x 1 operation, bound 1 (quick) / 2 (thorough); the quantifier's random 2..16-goroutine programs and GOMAXPROCS variation are replaced by exhaustive small-scope enumeration.",
     design="3/C16")
 
